@@ -19,6 +19,9 @@ spec -> code, two specifications:
                   writes it (plain, .gz, .bz2, explicit format=), loads it back, and calls every
                   parser variant of the format directly on the written text (bytes / line based,
                   strict / non-strict, through iter_splitlines with several chunk sizes, CRLF copies).
+  SeqFormatsHist.tla  the loader configuration as state: histories of loads of one line based format in one
+                  process (LoadOpt ; RoundTrip = RoundTrip); TLC refutes the design that merges per-call options
+                  into the shared parser object; every history is replayed in a pristine forked process.
   SeqFormatsGb.tla  model of the GenBank flat-file layout (cogent3 has no GenBank writer) + transcription of
                   the bytes-splitting iter_genbank_records; every GenBank parser variant (minimal_parser,
                   rich_parser, MinimalGenbankParser, registry, loaders) must return the oracle records.
@@ -171,13 +174,22 @@ def check(run: Run):
 
     stats = {}
     # VERIF_C06_PARTS restricts a run to some parts (development / mutant self-tests only; default = everything)
-    parts = set(os.environ.get("VERIF_C06_PARTS", "linestream,formats,genbank").split(","))
+    parts = set(os.environ.get("VERIF_C06_PARTS", "linestream,hist,formats,genbank").split(","))
     pairs = lcalls = cases = fcalls = 0
     with Scratch("C06") as scratch:
         if "linestream" in parts:
             pairs, lcalls = check_linestream(run, scratch, stats)
+        if "hist" in parts:
+            # before anything in this process touches a loader: histories fork from a pristine parent
+            import hist_C06
+
+            nh, hcalls = hist_C06.check_histories(run, scratch, stats, tlc_emit, NPROC)
+            cases += nh
+            fcalls += hcalls
         if "formats" in parts:
-            cases, fcalls = check_formats(run, scratch, stats)
+            c2, f2 = check_formats(run, scratch, stats)
+            cases += c2
+            fcalls += f2
         if "genbank" in parts:
             import genbank_C06
 
@@ -188,7 +200,7 @@ def check(run: Run):
     run.cov["traces_validated_against_impl"] = pairs + cases
     run.cov["evaluations"] = lcalls + fcalls
     run.cov["distinct_nontrivial"] = pairs + cases
-    run.cov["exhaustive"] = parts >= {"linestream", "formats", "genbank"}
+    run.cov["exhaustive"] = parts >= {"linestream", "hist", "formats", "genbank"}
     if not run.cov["exhaustive"]:
         run.assumptions.append(f"PARTIAL RUN: VERIF_C06_PARTS={sorted(parts)}")
     run.cov["rule"] = (
@@ -197,7 +209,8 @@ def check(run: Run):
         "sequences) of the exhaustive model, each written and loaded as ArrayAlignment / Alignment / SequenceCollection and parsed by "
         "every parser variant of the format; SeqFormatsGb: every generated GenBank file (1..3 records, lengths around the 10/60 residue "
         "boundaries) parsed by every GenBank parser variant; distinct = distinct (text, chunk) pairs + distinct cases + distinct files; "
-        "evaluations = real API calls"
+        "evaluations = real API calls; SeqFormatsHist: every history of 2 (thorough 3) public calls (load with parser_kw / label_to_name, "
+        "plain round trip x {plain,.gz,.bz2} x {aligned,unaligned}, strictness probe) on each registered line based format, replayed in a pristine process"
     )
     run.assumptions += [
         "names contain at least one non-blank character and no control characters; names of one collection stay distinct after the format's truncation",
@@ -206,6 +219,8 @@ def check(run: Run):
         "zero-length sequences are only exercised in ragged unaligned collections (FASTA, GDE, JSON) and reported under the class empty-seq",
         "JSON has no line-level model: only the oracle (names, order, sequences unchanged) is checked",
         "text differing from the writer model / a parser differing from its transcription while the oracle holds is MODEL-DRIFT, not a violation",
+        "histories stay within one format (each format has its own parser object); 'the records of the file' for formats without a registered writer "
+        "(clustal, nexus, msf, xmfa) is what the same plain load returns in a pristine process",
         "GenBank: cogent3 has no writer, well-formed files come from the layout model in SeqFormatsGb.tla; sequences are compared up to letter case",
         "clustal/nexus/xmfa/msf are not in FORMATTERS (no writer), so they have no round trip; encoding detection by chardet is exercised on ASCII only",
     ]
